@@ -13,7 +13,7 @@ ID = "C15"
 LEVEL = "exploration"
 TECHNIQUE = "exhaustive request enumeration from app.url_map with status + state-fingerprint oracle under a controlled clock"
 RULE = ("every rule x method of the live url_map (HEAD included, automatic OPTIONS judged on 'serves nothing, changes nothing') x instance id in "
-        "{live, dead, malformed, externalised, ids that begin like the public resources (metrics, healthy-1, full-metrics)} x body in {well-formed superset body, none} x 18 credential shapes x server state in "
+        "{live, dead, malformed, externalised, ids that begin like the public resources (metrics, healthy-1, full-metrics)} x body in {well-formed superset body, none} x 22 credential shapes (incl. the token with non-ASCII characters added) x server state in "
         "{no instances, live session, locked session, externalised instance}; control group: the same requests with the exact token must not "
         "be refused by the decorator, and the identical request repeated straight after it with 4 credential shapes is refused again. distinct_nontrivial = distinct (rule, method, credential class) triples refused on a server state in "
         "which the same request with the token is served (2xx).")
@@ -35,6 +35,8 @@ def credentials():
         ("token-first-wrong-second", t[:-1] + " " + t[:-1]), ("bare-wrong", t[:-1]), ("long", "Bearer " + "A" * 5000), ("latin1", "Bearer tök3n"),
         ("quoted", 'Bearer "' + t + '"'), ("comma", "Bearer " + t + ",x"), ("tab", "Bearer\t" + t + "x"),
         ("basic-b64", "Basic dXNlcjpwYXNz"), ("negotiate", "Negotiate " + t[::-1]),
+        # the token with characters outside ASCII added (a comparison that drops or replaces what it cannot encode would accept them)
+        ("nonascii-suffix", "Bearer " + t + "\u00e9"), ("nonascii-inside", "Bearer " + t[:3] + "\u00fc" + t[3:]), ("nonascii-prefix", "Bearer \u00df" + t), ("nonascii-only", "Bearer \u00fc\u00e9"),
         # contain the exact token as a word: recorded only
         ("EXEMPT-basic-token", "Basic " + t), ("EXEMPT-double-space", "Bearer  " + t), ("EXEMPT-extra-word", "Bearer " + t + " extra"),
         ("EXEMPT-lower-scheme", "bearer " + t),
